@@ -136,6 +136,11 @@ def write_replay(prop, failed, results, found):
     by_unit = {r.unit: r for r in results}
     doc = {'property': prop, 'failed_obligations': [], 'failing_input': found, 'how_to_replay': './check %s --replay %s' % (prop, path)}
     for o in failed:
+        if o.unit == 'kani':
+            doc['failed_obligations'].append({'id': o.id, 'function': o.fn, 'unit': 'kani harness (see /verif/kani)', 'repo_location': o.where,
+                                              'reason': o.detail, 'verifier_cmd': 'cargo kani --harness %s (scratch copy of /repo with the harness appended)' % o.fn,
+                                              'verifier_output': [o.detail]})
+            continue
         r = by_unit[o.unit]
         rendered = [e['rendered'] for e in r.errors if e['fn'] == o.fn][:6]
         doc['failed_obligations'].append({'id': o.id, 'function': o.fn, 'unit': o.unit, 'repo_location': o.where,
